@@ -216,7 +216,9 @@ AF_PRE = {"none": "", "int": "a = 1\n", "const": "const a = 1\n", "opt": "a: int
 TU_TYPES = {"int": ("int", "1"), "float": ("float", "1.5"), "str": ("str", '"s"'), "bool": ("bool", "true"), "byte": ("byte", "0b1"), "bigint": ("bigint", "B1"),
             "list": ("[int...]", "[1, 2]"), "list-str": ("[str...]", '["a"]'), "nested": ("[[int...]...]", "[[1]]"), "opt": ("int?", "nil"),
             "map-str": ("map[str,int]", "map[str,int]"), "map-int": ("map[int,int]", "map[int,int]"), "map-float": ("map[float,int]", "map[float,int]"),
-            "map-bool": ("map[bool,str]", "map[bool,str]"), "fn": ("fn(int)->int", "fn(q: int) -> int {\n\treturn q\n}"), "obj": ("Tq", "Tq()")}
+            "map-bool": ("map[bool,str]", "map[bool,str]"), "fn": ("fn(int)->int", "fn(q: int) -> int {\n\treturn q\n}"), "obj": ("Tq", "Tq()"),
+            # fixed-shape lists (declared const, without an annotation): empty, one element kind, mixed
+            "fixed-empty": ("", "[]"), "fixed-pair": ("", '[1, "a"]'), "fixed-nested-empty": ("", "[[], []]")}
 TU_USES = ["v = X[0]", "v = X[1.5]", 'v = X["k"]', "v = X[true]", "v = X[B1]", "v = X[0b1]", "v = X[ix]", "v = X[fx]", "v = X[sx]", "X[0] = 1", "X[1.5] = 1", 'X["k"] = 1', "X[0] += 1",
            "X[1.5] += 1", "v = X[0][0]", "v = X(1)", "v = X.v", "X.v = 1", "v = X + 1", "v = X + X", "v = -X", "v = !X", "v = (X) or 1", "v = get X", "v = X == nil",
            "from 0 to X {\n}", "from 0 to 2 step X {\n}", "if X {\n}", "v = [X, X]", "v = map[str, int] {\"k\": X}", "v = X.len()", "v = X is X", "v = typeof X", "print X",
@@ -241,12 +243,15 @@ def tu_source(case):
     ty, init = TU_TYPES[t]
     pre = "class Tq {\n\tv: int\n\tconstructor(self) {\n\t\tself.v = 1\n\t}\n}\n" if t == "obj" else ""
     pre += "ix = 0\nfx = 1.5\nsx = \"k\"\ntwo = fn(p: int, q: int) -> int {\n\treturn p + q\n}\n"
-    if alias:
+    if not ty:
+        # (no annotation: the type is the literal's own fixed shape; the alias variant declares the constant in a nested block instead)
+        pre += (f"if true {{\n" if alias else "") + f"const xq = {init}\n"
+    elif alias:
         pre += f"type Aq {ty}\nxq: Aq = {init}\n"
     else:
         pre += f"xq: {ty} = {init}\n"
     stmt = TU_USES[u].replace("X", "xq")
-    return pre + TU_HOSTS[h].replace("{{", "{").replace("}}", "}").replace("{S}", stmt.replace("\n", "\n\t") if h == "fn" else stmt) + "\n"
+    return pre + TU_HOSTS[h].replace("{{", "{").replace("}}", "}").replace("{S}", stmt.replace("\n", "\n\t") if h == "fn" else stmt) + "\n" + ("}\n" if (alias and not ty) else "")
 
 
 def af_cases():
@@ -325,7 +330,7 @@ class C16(Check):
         imps = [("i", pi, fi, h) for pi in range(len(self.IMPORT_PATHS)) for fi in range(len(self.IMPORT_FORMS)) for h in self.IMPORT_HOSTS]
         tul = list(tu_cases())
         afl = list(af_cases())
-        ls = [("Lu-type-x-use:-16-types-direct-and-through-an-alias-x-52-uses", tul if tier == "thorough" else [c for c in tul if c[4] == "module" or c[2]]),
+        ls = [("Lu-type-x-use:-19-types-direct-and-through-an-alias-x-52-uses", tul if tier == "thorough" else [c for c in tul if c[4] == "module" or c[2]]),
               ("Lf-assignment-flags-x-forms-x-hosts-x-declared-where", afl if tier == "thorough" else [c for c in afl if c[4] in ("none", "int", "opt")]), ("L0-nesting-towers+lexical-boundaries", [[c] for c in towers()] + [("x", c, i) for i in range(len(lits)) for c in range(len(LEX_CTX))]),
               ("Li-import-paths-x-forms-x-hosts", imps),
               ("L1-grammar-k<=2-all-hosts", gram(2, HOSTS, pre, list(ROOTS))),
